@@ -946,6 +946,8 @@ _EXCL_STAGES = lambda: [
     corr_stage("C09S", 6, 20, feature=feat_c09, instrument=True, shards=6, tparams={"points": 1000}),
     corr_stage("C09RATE", 150, 1500, validate=False),
     corr_stage("C10SHAREDOPT", 25, 150, validate=False),
+    corr_stage("C09KEYS", 200, 2000, validate=False),
+    corr_stage("C10WAITS", 150, 1500, validate=False),
 ]
 
 PROPS["C09"] = dict(
